@@ -1,8 +1,10 @@
 package types
 
 import (
+	"bytes"
 	"encoding/json"
 	"fmt"
+	"sort"
 
 	"github.com/pokt-network/pocket-core/codec"
 	"github.com/pokt-network/pocket-core/crypto"
@@ -355,6 +357,11 @@ func NormalizeRewardDelegators(
 			RewardShare: rewardShare,
 		})
 	}
+	// the result drives state writes (payouts that may create accounts): its order must not depend on the
+	// iteration order of the map
+	sort.Slice(normalized, func(i, j int) bool {
+		return bytes.Compare(normalized[i].Address, normalized[j].Address) < 0
+	})
 	return normalized, nil
 }
 
